@@ -30,7 +30,7 @@ python3 /verif/tools/baseline_check.py > "$OUT/baseline.log" 2>&1; B=$?
 echo "repo suite with change: exit $B (want 0)"; tail -3 "$OUT/baseline.log"
 RES=""
 for P in $PROPS; do
-  /verif/check $P quick > "$OUT/check_$P.log" 2>&1; E=$?
+  VERIF_WALL_CAP=900 /verif/check $P quick > "$OUT/check_$P.log" 2>&1; E=$?
   RES="$RES $P=$E"
   echo "check $P quick -> exit $E"; grep -E "^VIOLATION|key:" "$OUT/check_$P.log" | head -4
 done
